@@ -2177,6 +2177,8 @@ def rule_epsclosure(px):
             _guard('DFA epsilon closure', lambda: _eps_run(pm, kinds, n, edges, perm, set_first))
         except _EpsFail as e:
             failed.setdefault(e.fn, (n, edges, cls, e.msg))
+        except PyRaise as e:
+            raise AnalysisError('C50-EPS: building the epsilon graph %s with Machines.Node / Node.link_to raises %r in the evaluator' % (_show_graph(edges), e.exc))
     for fn in fns:
         for cls in ('acyclic', 'cyclic'):
             r.inst('DFA.%s:%s' % (fn, cls), sample='DFA.%s (%s -> closure) on %d request sequences over %s epsilon graphs' % (fn, kinds[fn], counts.get(cls, 0), cls))
